@@ -70,7 +70,12 @@ func (s Set[T]) Has(val T) bool {
 func (s Set[T]) Copy() Set[T] {
 	ret := NewSet(s.rules)
 	for k, v := range s.vals {
-		ret.vals[k] = v
+		// Each set needs its own bucket slices, because Add appends to a
+		// bucket in place and would otherwise write into spare capacity
+		// that is shared with the other set.
+		bucket := make([]T, len(v))
+		copy(bucket, v)
+		ret.vals[k] = bucket
 	}
 	return ret
 }
